@@ -9,4 +9,5 @@ TARGETS = {
     'shared': dict(cfg='fib', src=['harness/shared.cpp'], cflags=f'-O1 -g1 {ASAN}', libs='-lrapidcheck'),
     'when': dict(cfg='fib', src=['harness/when.cpp'], cflags=f'-O1 -g1 {ASAN}', libs='-lrapidcheck'),
     'wait': dict(cfg='fib', src=['harness/wait.cpp'], cflags=f'-O1 -g1 {ASAN}', libs='-lrapidcheck'),
+    'comutex': dict(cfg='fib', src=['harness/comutex.cpp'], cflags=f'-O1 -g1 {ASAN}', libs='-lrapidcheck'),
 }
